@@ -2242,6 +2242,14 @@ ldb_write(ldb_t *db, ldb_batch_t *updates, const ldb_writeopt_t *options) {
 
       rc = ldb_writer_add_record(db->log, &contents);
 
+      if (rc != LDB_OK) {
+        /* A failed append may leave a partial record in the log and the
+           writer's block offset out of step with the file, so records
+           appended afterwards could be dropped by recovery. Treat it
+           like a failed sync. */
+        sync_error = 1;
+      }
+
       if (rc == LDB_OK && options->sync) {
         rc = ldb_wfile_sync(db->logfile);
 
